@@ -46,3 +46,9 @@ mod c03_stage;
 mod c05_merge;
 #[cfg(all(kani, feature = "c02_layers"))]
 mod c02_layers;
+#[cfg(all(kani, feature = "c16_tokenizer"))]
+mod c16_tokenizer;
+#[cfg(all(kani, feature = "c05_foldp"))]
+mod c05_foldp;
+#[cfg(all(kani, feature = "c04_html"))]
+mod c04_html;
